@@ -20,7 +20,7 @@ func init() {
 	fw.Register(&fw.Property{
 		ID:    "C10",
 		Level: "fault_enumeration",
-		Rule: "ENUMERATED for announcement lists of length <= 4: number of valid heads {1,2} x bad kind {non-writer author, forged author (victim identity block and key: signature fails at join), wrong database, wrong claimed hash} x position of the bad head in the list x placement {same message, message before, message after the valid one} x receiver {empty, already holding a prefix} x fetch-completion order (remote block fetches of the receiver are held and released in a PRNG permutation; the observed completion order is part of the signature); followed by an honest re-announcement of the valid heads only. " +
+		Rule: "ENUMERATED for announcement lists of length <= 4: number of valid heads {1,2} x bad kind {non-writer author; forged author in three forms: victim identity block and key (signature fails at join), victim id with the attacker's key and signatures, victim identity block with the attacker's key; wrong database; wrong claimed hash in two forms: the address of another valid head, an unrelated address} x position of the bad head in the list x placement {same message, message before, message after the valid one} x receiver {empty, already holding a prefix} x fetch-completion order (remote block fetches of the receiver are held and released in a PRNG permutation; the observed completion order is part of the signature); followed by an honest re-announcement of the valid heads only. " +
 			"distinct = cell + observed fetch-completion order; non-trivial = the bad head was delivered, >= 2 remote fetches went through the shuffling gate, and the re-announcement was delivered",
 		Assumptions: []string{"whether a bad entry got in is C03/C04's statement and is not judged here", "structurally undecodable blocks are outside this property"},
 		Cases:       c10Cases,
@@ -31,7 +31,7 @@ func init() {
 	})
 }
 
-var c10Bad = []string{"non-writer", "forged-sig-fails", "wrong-database", "wrong-hash"}
+var c10Bad = []string{"non-writer", "forged-sig-fails", "forged-identity", "forged-own-key", "wrong-database", "wrong-hash", "wrong-hash-unrelated"}
 var c10Place = []string{"same", "before", "after"}
 
 func c10Cases(tier string, seed int64) []fw.Case {
@@ -206,6 +206,11 @@ func c10Run(c fw.Case) fw.Verdict {
 			return A.Forge(fNonWriter, db.Addr, opPayload(typ, 50+i, "x"), vh, nil, maxT+1+i, nil)
 		case "forged-sig-fails":
 			return A.Forge(fBlockVictimKey, db.Addr, opPayload(typ, 50+i, "x"), vh, nil, maxT+1+i, C.DB.Identity())
+		case "forged-identity":
+			// the victim's id with the attacker's key and signatures: refused by the access controller's author check
+			return A.Forge(fCopiedID, db.Addr, opPayload(typ, 50+i, "x"), vh, nil, maxT+1+i, C.DB.Identity())
+		case "forged-own-key":
+			return A.Forge(fBlockOwnKey, db.Addr, opPayload(typ, 50+i, "x"), vh, nil, maxT+1+i, C.DB.Identity())
 		case "wrong-database":
 			op, err := ApplyOp(bg, db2.Stores[C.Idx], honestOp(typ, 70+i))
 			if err != nil {
@@ -217,7 +222,15 @@ func c10Run(c fw.Case) fw.Verdict {
 			if err != nil {
 				return nil, err
 			}
-			he.Hash = valid[0].Hash // claims the address of another (valid) entry
+			if bad == "wrong-hash-unrelated" {
+				other, err := A.Rehash(&entry.Entry{LogID: "x", Payload: []byte(fmt.Sprintf("x%d", i)), V: 2, Clock: entry.NewLamportClock([]byte{1}, 1)})
+				if err != nil {
+					return nil, err
+				}
+				he.Hash = other // claims an address that is not the hash of its content
+			} else {
+				he.Hash = valid[0].Hash // claims the address of another (valid) entry
+			}
 			if i > 0 {
 				he.Payload = append(he.Payload, ' ')
 			}
